@@ -21,17 +21,46 @@ REPO = "/repo"
 ROOT = os.path.dirname(os.path.dirname(os.path.abspath(__file__)))
 FILES = ["valida/callables.py", "valida/conditions.py", "valida/data.py", "valida/datapath.py", "valida/rules.py",
          "valida/schema.py", "valida/utils.py", "valida/casting.py"]
-# which checks to run for a mutant in a given file (the property anchors name these files)
+# which checks to run for a mutant: by enclosing function first (most specific), then by file
+BY_FUNC = [
+    ("ContainerValue.from_spec", ["C10", "C19", "C16", "C12"]), ("DataPath.from_spec", ["C10", "C19", "C16", "C17"]),
+    ("from_part_specs", ["C10", "C12", "C16"]), ("from_str", ["C10"]), ("Rule.from_spec", ["C10", "C19", "C16", "C13"]),
+    ("from_spec", ["C09", "C19", "C16", "C11"]),
+    ("to_part_specs", ["C12", "C13"]), ("to_spec", ["C12", "C11"]), ("simplify", ["C12", "C15", "C18"]),
+    ("Rule.to_json_like", ["C13"]), ("Schema.to_json_like", ["C13"]), ("_arg_to_json_like", ["C11", "C12"]), ("to_json_like", ["C11", "C13", "C12"]),
+    ("__eq__", ["C14", "C10", "C12"]), ("_members", ["C14", "C09"]),
+    ("_get_resolved_data_path_args", ["C17", "C01"]), ("PreparedConditionCallable", ["C17", "C01"]),
+    ("Condition._filter", ["C01", "C05", "C07"]), ("ConditionBinaryOp", ["C02", "C14", "C05"]), ("flatten", ["C02", "C10"]), ("is_like", ["C10", "C02"]),
+    ("KeyLike", ["C01", "C03"]), ("IndexLike", ["C01", "C03"]), ("ConditionLike.test", ["C01"]), ("null_condition_binary_check", ["C02"]),
+    ("set_datum", ["C15", "C07"]), ("Data.__init__", ["C03", "C01", "C07"]), ("Data.get", ["C03"]), ("extract_paths", ["C05", "C06"]),
+    ("get_failure_by_index", ["C05"]), ("FilteredData", ["C01", "C02", "C05"]), ("Data.", ["C01", "C03", "C08"]),
+    ("get_data", ["C03", "C04", "C05"]), ("_extract_specified_datum_type", ["C04", "C17"]), ("_match_specified_multi_type", ["C04", "C17"]),
+    ("_copy_with", ["C04", "C14"]), ("MULTI_TYPE", ["C04", "C10"]), ("__truediv__", ["C18", "C02"]), ("DataPath.__init__", ["C03", "C10", "C14"]),
+    ("get_container_value_condition", ["C10", "C02", "C03"]), ("MapOrListValue.filter", ["C03", "C02", "C08"]), (".filter", ["C03", "C02"]),
+    ("MapOrListValue", ["C10", "C03", "C14"]), ("MapValue", ["C10", "C03"]), ("ListValue", ["C10", "C03"]),
+    ("Rule.test", ["C15", "C07", "C08"]), ("RuleTest._test", ["C05", "C06", "C17"]), ("Rule.__init__", ["C05", "C10"]),
+    ("add_schema", ["C18", "C13"]), ("ValidatedData", ["C06", "C15", "C08"]), ("Schema.", ["C06", "C18", "C13"]),
+    ("get_func_args_by_kind", ["C09", "C11"]),
+]
 CHECKS = {
-    "valida/callables.py": ["C01", "C07", "C05"],
-    "valida/conditions.py": ["C01", "C02", "C05", "C09", "C11", "C14", "C16", "C17", "C19", "C08"],
-    "valida/data.py": ["C01", "C02", "C03", "C05", "C15", "C08"],
-    "valida/datapath.py": ["C03", "C04", "C10", "C12", "C14", "C16", "C19", "C05", "C18"],
-    "valida/rules.py": ["C05", "C07", "C15", "C10", "C13", "C16", "C19", "C08", "C14"],
-    "valida/schema.py": ["C06", "C18", "C13", "C15", "C07", "C08", "C14"],
+    "valida/callables.py": ["C01", "C07"],
+    "valida/conditions.py": ["C01", "C02", "C09", "C11"],
+    "valida/data.py": ["C01", "C03", "C05", "C15"],
+    "valida/datapath.py": ["C03", "C04", "C10", "C12"],
+    "valida/rules.py": ["C05", "C15", "C10", "C13"],
+    "valida/schema.py": ["C06", "C18", "C13", "C15"],
     "valida/utils.py": ["C02", "C09", "C11"],
-    "valida/casting.py": ["C15", "C07", "C10", "C13"],
+    "valida/casting.py": ["C15", "C07", "C10"],
 }
+
+
+def checks_for(m):
+    for key, lst in BY_FUNC:
+        if key in m["func"]:
+            return lst
+    return CHECKS[m["file"]]
+
+
 SKIP_FUNCS = {"to_tree", "write_tree_html", "format_map_key_value_data_type_conditions", "validate_rule_paths",
               "resolve_implicit_types", "__repr__", "get_failures_string", "print_failures", "from_yaml_file",
               "get_always_applicable_key_conditions", "get_always_applicable_type_like_conditions"}
@@ -49,6 +78,11 @@ class Collector(ast.NodeVisitor):
         self.func.append(node.name)
         if node.name not in SKIP_FUNCS:
             self.generic_visit(node)
+        self.func.pop()
+
+    def visit_ClassDef(self, node):
+        self.func.append(node.name)
+        self.generic_visit(node)
         self.func.pop()
 
     def add(self, node, kind, detail=None):
@@ -204,7 +238,7 @@ def run(outdir, n, seed):
         shutil.copy(os.path.join(outdir, m["id"] + ".py"), os.path.join(REPO, m["file"]))
         r = {"file": m["file"], "line": m["line"], "kind": m["kind"], "func": m["func"], "checks": {}}
         try:
-            for p in CHECKS[m["file"]]:
+            for p in checks_for(m):
                 t0 = time.time()
                 c = sh(f"cd {ROOT} && ./vcheck {p} --tier quick")
                 nv = sum(1 for ln in c.stdout.splitlines() if ln.startswith("VIOLATION"))
